@@ -62,16 +62,20 @@ func c03(c *eng.Ctx) {
 	sl := c.Slicer()
 	// ---- R1
 	for _, pop := range popImpls(c) {
-		// collect appends to endpoint slices
+		// appends to endpoint slices that feed the returned endpoint (in Pop or in helpers it calls)
 		var appends []*ssa.Call
-		for _, ci := range eng.Calls(pop) {
-			if call, ok := ci.(*ssa.Call); ok && isBuiltin(ci, "append") && isEndpointSlice(call.Type()) {
-				appends = append(appends, call)
-			}
-		}
 		isAppend := func(v ssa.Value) bool {
 			call, ok := v.(*ssa.Call)
 			return ok && isBuiltin(call, "append") && isEndpointSlice(call.Type())
+		}
+		addAppend := func(v ssa.Value) {
+			call := v.(*ssa.Call)
+			for _, a := range appends {
+				if a == call {
+					return
+				}
+			}
+			appends = append(appends, call)
 		}
 		// returns
 		eng.Instrs(pop, func(ins ssa.Instruction) {
@@ -91,6 +95,7 @@ func c03(c *eng.Ctx) {
 			for _, leaf := range sl.Leaves(r.Results[0], isAppend) {
 				switch {
 				case isAppend(leaf):
+					addAppend(leaf)
 				case eng.IsNilConst(leaf):
 				default:
 					if a, ok := leaf.(*ssa.Alloc); ok {
@@ -336,10 +341,11 @@ func c03(c *eng.Ctx) {
 			}
 			// cancel watcher
 			found := false
-			for _, fn := range eng.WithClosures(sh) {
+			for _, fn := range c.W.FuncsOf(pkgDispatcher) {
 				for _, ci := range eng.CallsTo(fn, "(*"+tEndpointInfo+").Context") {
 					found = true
-					ok := sl.DerivesFrom(eng.Receiver(ci), isPopRes)
+					// the watcher may be a closure of ServeHTTP or an extracted function started with go
+					ok := sl.WithUp().DerivesFrom(eng.Receiver(ci), isPopRes)
 					c.Check("R4", fn, "cancel-watch context of the picked endpoint", ci.Pos(), ok, "the goroutine must watch the context of the endpoint that serves this request")
 				}
 			}
@@ -528,7 +534,7 @@ func c14(c *eng.Ctx) {
 				if ia, ok := u.X.(*ssa.IndexAddr); ok {
 					if z, isInt := eng.IntConst(ia.Index); isInt && z == 0 && ia.X == lenOf {
 						short = eng.GuardedBy(r, func(rel eng.Rel) bool {
-							lc, ok := rel.X.(*ssa.Call)
+							lc, ok := convOf(rel.X).(*ssa.Call)
 							k, isK := eng.IntConst(rel.Y)
 							return ok && isBuiltin(lc, "len") && lc.Call.Args[0] == lenOf && isK && k == 1 && rel.Op == token.EQL
 						})
